@@ -5,7 +5,7 @@ bounds/padding), T7b (tile counts of compute_tile_positions_per_frame), regenera
 Tie C: the composed model (Model/Tiling.lean: table selection, copy loop, TILED_FULL table, the tiling loop of
 the Segmentation constructor) against
   L0  Image.get_total_pixel_matrix on synthetic tiled slide images (TILED_FULL / TILED_SPARSE, omitted tiles,
-      permuted frame order, 1 or 3 samples), Segmentation(tile_pixel_array=True) -> get_total_pixel_matrix
+      permuted frame order, 1 or 3 samples, repeated tile positions), Segmentation(tile_pixel_array=True) -> get_total_pixel_matrix
       (BINARY / FRACTIONAL / LABELMAP, both organisations, omit_empty_frames, tile sizes, segment subsets),
   L1  what the constructor stores (NumberOfFrames, per-frame tile positions and segment numbers, frame pixels)
       observed through pydicom,
@@ -342,6 +342,68 @@ def _check_slide(ctx, cfg, requests, reqs, pending, exhaustive=False):
                             'instruction list'))
 
 
+# ------------------------------------------------------------------------------------------ stream A': repeated tile positions
+def _check_duplicates(ctx, idx, reqs, pending):
+    """Images in which two frames claim the same tile position (a second optical path in a TILED_FULL image, a repeated
+    per-frame position in a TILED_SPARSE image): a read without a channel query cannot know which frame to show."""
+    import copy
+    import highdicom as hd
+    from pydicom.dataset import Dataset
+    from pydicom.sequence import Sequence
+    from gen.sources import slide_image
+    r = ctx.rng('dup', idx)
+    R, C, th, tw = r.randint(1, 6), r.randint(1, 6), r.randint(1, 4), r.randint(1, 4)
+    full = idx % 2 == 0
+    ds, tpm = slide_image(R, C, th, tw, tiled_full=full, rng=ctx.np_rng('duppix', idx))
+    n = int(ds.NumberOfFrames)
+    fb = th * tw
+    raw = bytes(ds.PixelData)[:n * fb]
+    if full:
+        ds.NumberOfOpticalPaths = 2
+        op = Dataset()
+        op.OpticalPathIdentifier = '2'
+        ds.OpticalPathSequence = Sequence(list(ds.OpticalPathSequence) + [op])
+        data = raw + raw
+        ds.NumberOfFrames = 2 * n
+        lut, channels = [], [1, 2]
+        k = None
+    else:
+        k = r.randrange(n)
+        pf = list(ds.PerFrameFunctionalGroupsSequence)
+        pf.append(copy.deepcopy(pf[k]))
+        ds.PerFrameFunctionalGroupsSequence = Sequence(pf)
+        data = raw + raw[k * fb:(k + 1) * fb]
+        ds.NumberOfFrames = n + 1
+        lut = [[int(f.PlanePositionSlideSequence[0].RowPositionInTotalImagePixelMatrix),
+                int(f.PlanePositionSlideSequence[0].ColumnPositionInTotalImagePixelMatrix), i, 0] for i, f in enumerate(pf)]
+        channels = [1]
+    ds.PixelData = data + (b'\x00' if len(data) % 2 else b'')
+    cfg = dict(idx=idx, R=R, C=C, th=th, tw=tw, full=full, duplicate='optical-path' if full else k)
+    st, im = _fetch(hd.Image.from_dataset, ds, copy=False)
+    if st == 'err':
+        ctx.note(f'image with repeated positions could not be opened: {im}')
+        return
+    requests = [(None, None, None, None, False)] + random_requests(r, R, C, th, tw, 3)
+    impls = []
+    for req in requests:
+        rs, re, cs, ce, ai = req
+        st, val = _fetch(im.get_total_pixel_matrix, row_start=rs, row_end=re, column_start=cs, column_end=ce, as_indices=ai)
+        orc = oracle_region(R, C, req)
+        ctx.case(kind='duplicates', organisation='TILED_FULL' if full else 'TILED_SPARSE', request_class='duplicate-positions',
+                 outcome='ok' if st == 'ok' else val.split(':')[0])
+        if st == 'ok':
+            # both frames hold the same pixels here, so an answer, if any, must still be the matrix
+            if orc[0] == 'refuse' or not np.array_equal(np.asarray(val).astype(np.int64), tpm[orc[1]:orc[2], orc[3]:orc[4]].astype(np.int64)):
+                ctx.fail({'duplicates': cfg, 'request': list(req)}, 'read of an image with repeated tile positions returned a wrong region',
+                         site='Image.get_total_pixel_matrix')
+        impls.append(('ok', {'shape': list(np.asarray(val).shape[:2]), 'data': _px(val)}) if st == 'ok' else ('err', val))
+    frames = np.frombuffer(data, dtype=np.uint8).reshape((-1, th, tw))
+    reqs.append(('readRegions', {'frames': [_px(f) for f in frames], 'rows': R, 'cols': C, 'th': th, 'tw': tw, 'full': full,
+                                 'allow_missing': False, 'chan': None, 'channels': channels, 'lut': lut,
+                                 'requests': [list(q) for q in requests]}))
+    pending.append(('multi', [{'duplicates': cfg, 'request': list(q)} for q in requests], impls, 'L0', 'Image.get_total_pixel_matrix (repeated positions)'))
+
+
 # ------------------------------------------------------------------------------------------ stream B: tiled segmentations
 def _seg_config(ctx, idx):
     r = ctx.rng('seg', idx)
@@ -607,6 +669,22 @@ def _public_escalation(ctx):
                 ctx.fail(case, {'what': 'region differs from numpy slice of the total pixel matrix'}, site='Image.get_total_pixel_matrix')
         elif orc[0] == 'ok' and st == 'err' and orc[1] < orc[2] and orc[3] < orc[4]:
             ctx.fail(case, {'what': 'valid region refused', 'error': val}, site='Image.get_total_pixel_matrix')
+        # the other public accessor that hands the same four arguments to the same helper (outputs_as_indices=True)
+        gv = getattr(im, 'get_volume', None)
+        if gv is not None:
+            st, vol = _fetch(gv, row_start=a, row_end=b, column_start=cc, column_end=dd, as_indices=ai)
+            case = {'slide': cfg, 'request': list(req), 'escalated_from': 'L2', 'accessor': 'get_volume'}
+            if st == 'ok':
+                arr = np.asarray(vol.array)
+                arr = arr[0] if arr.ndim >= 3 else arr
+                if orc[0] == 'refuse':
+                    ctx.fail(case, {'what': 'request outside the matrix was not refused', 'returned_shape': list(arr.shape)},
+                             site='Image.get_volume')
+                else:
+                    exp = tpm[orc[1]:orc[2], orc[3]:orc[4]]
+                    if arr.shape[:2] != exp.shape[:2] or not np.array_equal(arr.astype(np.int64), exp.astype(np.int64)):
+                        ctx.fail(case, {'what': 'region differs from numpy slice of the total pixel matrix', 'returned_shape': list(arr.shape),
+                                        'want_shape': list(exp.shape)}, site='Image.get_volume')
 
 
 # ------------------------------------------------------------------------------------------ run
@@ -673,7 +751,8 @@ def _exhaustive_configs(ctx):
     """(R, th) x (C, tw) coverings for the exhaustive region enumeration"""
     if ctx.tier == 'quick':
         return [dict(R=4, C=5, th=2, tw=3), dict(R=5, C=3, th=3, tw=1)]
-    rows = [(R, th) for R in range(1, 8) for th in range(1, 7)]
+    # every (matrix size <= 7, tile size <= 6) pair on each axis; tile sizes above the matrix size add nothing new on that axis
+    rows = [(R, th) for R in range(1, 8) for th in range(1, 7) if th <= R + 1]
     r = ctx.rng('exh', 0)
     cols = rows[:]
     r.shuffle(cols)
@@ -704,15 +783,20 @@ def run(ctx):
             _settle(ctx, reqs, pending)
             reqs, pending = [], []
     # random slide images
-    for idx in range(ctx.n(30, 500)):
+    for idx in range(ctx.n(60, 400)):
         cfg = _slide_config(ctx, idx)
         r = ctx.rng('slidereq', idx)
-        _check_slide(ctx, cfg, random_requests(r, cfg['R'], cfg['C'], cfg['th'], cfg['tw'], ctx.n(24, 40)), reqs, pending)
+        # every read decodes each touched frame through pydicom (~1 ms per frame): fewer requests for images with many frames
+        nframes = (-(-cfg['R'] // cfg['th'])) * (-(-cfg['C'] // cfg['tw']))
+        nreq = max(8, min(ctx.n(24, 36), 1200 // nframes))
+        _check_slide(ctx, cfg, random_requests(r, cfg['R'], cfg['C'], cfg['th'], cfg['tw'], nreq), reqs, pending)
         if len(reqs) > 200:
             _settle(ctx, reqs, pending)
             reqs, pending = [], []
+    for idx in range(ctx.n(8, 60)):
+        _check_duplicates(ctx, idx, reqs, pending)
     # tiled segmentations
-    for idx in range(ctx.n(40, 900)):
+    for idx in range(ctx.n(100, 700)):
         cfg = _seg_config(ctx, idx)
         _check_seg(ctx, cfg, reqs, pending)
         if len(reqs) > 200:
@@ -724,7 +808,12 @@ def run(ctx):
 def replay(ctx, case):
     """Re-run one stored case on the implementation -> failure detail or None."""
     sub = type(ctx)(ctx.prop, ctx.tier, ctx.seed, 1, ctx.driver)
-    if 'slide' in case:
+    if 'slide' in case and case.get('escalated_from'):
+        a, b, c, d, ai = case['request']
+        sub.l2_disagreements.append({'case': {'helper': '_standardize_row_column_indices',
+                                              'args': [a, b, c, d, case['slide']['R'], case['slide']['C'], ai, False]}})
+        _public_escalation(sub)
+    elif 'slide' in case:
         _check_slide(sub, case['slide'], [tuple(case['request'])], [], [])
     elif 'seg' in case:
         _check_seg(sub, case['seg'], [], [])
